@@ -10,6 +10,7 @@ env["PYTHONDONTWRITEBYTECODE"] = "1"  # never leave .pyc files in the repository
 out = tempfile.mktemp(suffix=".xml")
 cmd = ["/venv/bin/python", "-m", "pytest", "-ra", "-q", "-p", "no:cacheprovider", "--timeout=900",
        "--continue-on-collection-errors", "--junitxml=" + out]
+env.setdefault("COVERAGE_FILE", os.path.join(tempfile.gettempdir(), "verif-baseline.coverage"))  # keep the repository tree clean
 p = subprocess.run(cmd, cwd=os.environ.get("VERIF_REPO", "/repo"), env=env, stdout=subprocess.PIPE, stderr=subprocess.STDOUT)
 passed = set()
 for tc in ET.parse(out).getroot().iter("testcase"):
